@@ -1,7 +1,9 @@
-"""C15: steady-state loop aliases scipy's in-place buffer -> 'converges' at step 2 for any trajectory."""
-from mxlpy import Model, Simulator, fns
+"""C15: the steady-state loop kept a reference to the integrator's in-place output buffer, so the
+change between two steps was always 0 and every model 'converged' at the second step."""
+from mxlpy import Model, Simulator
 def const(k): return k
 m = Model().add_variable("x", 1.0).add_parameter("k", 1.0).add_reaction("v", fn=const, args=["k"], stoichiometry={"x": 1})
 res = Simulator(m).simulate_to_steady_state(tolerance=1e-6).get_result()
-print("result:", None if res is None else res.variables)
-assert res is None, "dx/dt = 1 has no steady state but one was reported"
+val = res.value
+print("result:", type(val).__name__, getattr(val, "raw_variables", None))
+raise SystemExit(0 if type(val).__name__ == "NoSteadyState" else "FAIL: dx/dt = 1 has no steady state but one was reported")
